@@ -128,6 +128,15 @@ fam("sort_str", lambda x: x.sort_values(["c", "u"]), group="sort")
 fam("set_index_u", lambda x: x.set_index("u"), pd_fn=lambda x: x.set_index("u").sort_index(), group="sort")
 fam("set_index_a_dup", lambda x: x.set_index("a"), pd_fn=lambda x: x.set_index("a").sort_index(kind="stable"), group="sort", ordered=False)
 fam("set_index_np2", lambda x: x.set_index("u", npartitions=2), pd_fn=lambda x: x.set_index("u").sort_index(), group="sort")
+# a key that is ALREADY sorted with duplicate runs (g = 0,1,2,2,3,3): the planner's presorted fast path must not be taken
+# when a run of equal keys straddles a partition border
+_g = lambda x: x.assign(g=x["d"].cumsum())  # noqa: E731
+fam("presorted_set_index_loc", lambda x: _g(x).set_index("g").loc[2], group="sort", ordered=False)
+fam("presorted_set_index_loc3", lambda x: _g(x).set_index("g").loc[3], group="sort", ordered=False)
+fam("presorted_set_index_slice", lambda x: _g(x).set_index("g").loc[2:3], group="sort", ordered=False)
+fam("presorted_set_index_all", lambda x: _g(x).set_index("g"), group="sort", ordered=False)
+fam("presorted_sort_two_keys_cumsum", lambda x: _g(x).sort_values(["g", "u"])["u"].cumsum(), group="sort")
+fam("presorted_sort_two_keys", lambda x: _g(x).sort_values(["g", "u"]), group="sort")
 fam("sort_index", lambda x: x.set_index("u").sort_index(ascending=False) if isinstance(x, pd.DataFrame) else x.set_index("u"), pd_fn=lambda x: x.set_index("u").sort_index(), group="sort")
 # cumulative
 for cum in ("cumsum", "cumprod", "cummax", "cummin"):
